@@ -420,7 +420,7 @@ def g_chain(rng, tier):
     if rng.random() < 0.3:
         # resolved in the unfavourable order (every entry before the ones it refers to): w^n substitutions in the
         # first entry — kept below the model's fuel of 400 rounds per entry
-        n, w = rng.choice([(6, 2), (7, 2), (8, 2), (4, 3), (5, 3)])
+        n, w = rng.choice([(5, 2), (6, 2), (7, 2), (3, 3), (4, 3)])          # 2^(n+1) - 2 resp. (3^(n+1) - 3) / 2 substitutions: at most 254
         return vars_line(doubling_chain(n, w, rng.choice(["x", "", "ab"]), True), rng.choice(["at.vars", "at.varsE"]))
     return vars_line(doubling_chain(n, w, rng.choice(["x", "", "ab"])), rng.choice(["at.vars", "at.varsE"]))
 
